@@ -310,7 +310,10 @@ impl Scenario for C03RandomFaults {
         let other = w.spec_valid.clone().into_bytes();
         let nloads = 1 + cx.tape.draw(6);
         cx.event_lazy("document", || crate::runner::clip(&w.text, 2500));
+        cx.tape.begin_group();
         for _ in 0..nloads {
+            cx.tape.end_group();
+            cx.tape.begin_group();
             // encode for the file entry points: UTF-8 mostly, sometimes UTF-16/32
             let enc = cx.tape.draw(8);
             let mut bytes = match enc {
@@ -526,7 +529,10 @@ impl Scenario for C03IncludeTrees {
         let spec_valid = a2mlgen::gen_a2ml(&mut cx.tape).text;
         cx.event(&format!("include tree: {} files, syntax {}", files.len(), st.syntax));
         let rounds = 2 + cx.tape.draw(5);
+        cx.tape.begin_group();
         for _ in 0..rounds {
+            cx.tape.end_group();
+            cx.tape.begin_group();
             // restore the tree, then damage it
             install_tree(&fs, cx, &root);
             let nvictims = 1 + cx.tape.draw(2);
